@@ -484,3 +484,68 @@ func ruleV1(r *Run) {
 	})
 	_ = strings.TrimSpace
 }
+
+// ---------------------------------------------------------------------------------------
+// V4 found-tests of index searches (C05: a delimiter that is the FIRST byte after a refill)
+
+func init() {
+	register("V4", "the result of bytes.IndexByte / strings.Index* is tested for 'found' with >= 0 (or != -1): a test that excludes position 0 misses a delimiter that arrives as the first byte of a refilled window, so a token runs on in streaming mode only", 2, ruleV4)
+}
+
+func ruleV4(r *Run) {
+	p := r.P
+	p.EachFunc(func(pkg *packages.Package, fd *ast.FuncDecl) {
+		info := pkg.TypesInfo
+		idx := map[types.Object]string{}
+		ast.Inspect(fd.Body, func(n ast.Node) bool {
+			as, ok := n.(*ast.AssignStmt)
+			if !ok || len(as.Lhs) != 1 || len(as.Rhs) != 1 {
+				return true
+			}
+			call, ok := ast.Unparen(as.Rhs[0]).(*ast.CallExpr)
+			if !ok {
+				return true
+			}
+			if f := Callee(info, call); f != nil && f.Pkg() != nil && (f.Pkg().Path() == "bytes" || f.Pkg().Path() == "strings") && strings.HasPrefix(f.Name(), "Index") {
+				if o := identObj(info, as.Lhs[0]); o != nil {
+					idx[o] = f.Pkg().Name() + "." + f.Name()
+				}
+			}
+			return true
+		})
+		if len(idx) == 0 {
+			return
+		}
+		n := 0
+		ast.Inspect(fd.Body, func(m ast.Node) bool {
+			be, ok := m.(*ast.BinaryExpr)
+			if !ok {
+				return true
+			}
+			o := identObj(info, be.X)
+			src, isIdx := idx[o]
+			if !isIdx {
+				return true
+			}
+			c, isC := intConst(info, be.Y)
+			if !isC {
+				return true
+			}
+			switch be.Op {
+			case token.LSS, token.LEQ, token.GTR, token.GEQ, token.EQL, token.NEQ:
+			default:
+				return true
+			}
+			n++
+			key := fmt.Sprintf("found-test of %s in %s #%d", src, p.DeclName(fd), n)
+			okTest := (be.Op == token.GEQ && c == 0) || (be.Op == token.LSS && c == 0) || (be.Op == token.GTR && c == -1) ||
+				(be.Op == token.LEQ && c == -1) || ((be.Op == token.EQL || be.Op == token.NEQ) && c == -1)
+			if okTest {
+				r.Ok(key, be.Pos(), types.ExprString(be))
+			} else {
+				r.Viol(key, be.Pos(), fmt.Sprintf("the result of %s is tested with `%s`, which treats a match at position 0 as 'not found': a delimiter that is the first byte of a (refilled) window is missed", src, types.ExprString(be)))
+			}
+			return true
+		})
+	})
+}
